@@ -149,6 +149,16 @@ Online(cfg, c) ==
                      \cup { Scn("online", c, << Dev(c, q, "lambda", 0, MBit(<< r, 1 >>, b)) >>, "victims", {q}, "revealed label") : b \in Bits } :
                      r \in UniqueOutRegs(circ) } : q \in { p \in Others : InPo(cfg, p) } })
   \cup
+  \* two coordinated alterations of a corrupted EVALUATOR: it announces a different masked input to one output party
+  \* and flips, for the same party, the revealed value of an output wire (the label it holds for that wire then matches
+  \* what this party expects if the wire depends on the input through XOR / NOT only): if the equivocation went
+  \* unnoticed, two honest parties would accept values that no single input of the evaluator explains (C02: agreement)
+  (IF n >= 3 /\ c = cfg.pe THEN
+     { Scn("online", c, << Dev(c, q, "masked inputs", 0, MPath("Flip", << r >>)), Dev(c, q, "lambda", 0, MPath("Flip", << o, 0 >>)) >>,
+           "victims", Others, "equivocation with matching revealed value") :
+         q \in { p \in Others : InPo(cfg, p) }, r \in InputRegsOf(circ, c), o \in UniqueOutRegs(circ) }
+   ELSE {})
+  \cup
   \* a masked value announced for a register that is no input wire (nothing is demanded of the outcome
   \* here; the key-secrecy monitor looks at what the garblers answer)
   { Scn("online", c, << Dev(c, ALL, "masked inputs", 0, [m |-> "ToSome", path |-> << r >>]) >>
